@@ -124,6 +124,7 @@ for type_ in (
     "LogGaussian",
     "compound",
     "modified",
+    "array",
 ):
     register_parser(type_, ModelObject.from_dict)
 
